@@ -106,30 +106,219 @@ from pyvc.values import SOpt  # noqa: E402
 from contracts import proto_widget as PW  # noqa: E402
 from urwid import canvas as _canvas  # noqa: E402
 
-for _k in ("Shards", "WidgetInfo", "PopUpData"):
+for _k in ("WidgetInfo", "PopUpData", "ShardTail"):
     if _k not in PROTOCOLS:
         PROTOCOLS[_k] = type(_k + "P", (Protocol,), {"kind": _k, "methods": {}})()
-_SH = S.opaque_sort("Shards")
-_ROWS = z3.Function("Shards.rows", _SH, z3.IntSort())
-_COLS = z3.Function("Shards.cols", _SH, z3.IntSort())
+
+# ---------------------------------------------------------------------------------------- the structured shard list
+# self.shards is a Python list of shards (num_rows, cviews): cviews a Python list of cview tuples.  The model keeps
+# Python's reference semantics for both levels of list (pyvc LRef: identity, in-place mutation seen by every alias):
+#   shard list value  =  explicit shards ... ++ [ unknown tail ] ++ explicit shards ...        (class ShardSeq)
+# an explicit shard is a pair (rows, LRef of a cview sequence of symbolic length); the unknown tail (class Rest) stands
+# for ZERO OR MORE further shards and is known only through three observers: how many shards, their total height,
+# and the width of the first of them (what CompositeCanvas.rows() / cols() compute).  Reading element 0 of a list that
+# starts with a non-empty tail spells the first shard of the tail out (Rest.unfold, memoised: every list that shares
+# the tail sees the SAME head cview list object, as in CPython where `[x] + shards[1:]` and `shards` share their
+# shard tuples).  Anything else about the tail (iteration, an element at a symbolic index) is Unsupported.
+_TAIL = S.opaque_sort("ShardTail")
+_T_N = z3.Function("ShardTail.len", _TAIL, z3.IntSort())
+_T_ROWS = z3.Function("ShardTail.rows", _TAIL, z3.IntSort())
+_T_COLS = z3.Function("ShardTail.cols", _TAIL, z3.IntSort())
+CVIEW_HELD = Tup(Int, Int, Nat, Nat, Opt(Opaque("AttrDict")), Opaque("LeafCanvas"))  # a cview inside a canvas: width, height >= 0
+
+
+def cviews_width(cvs, entry=False):
+    """sum(cv[2] for cv in cvs) -- what CompositeCanvas.cols() adds up over the first shard.  entry=True: of the
+    content the list object had when it was first seen (an in-place write later does not change the answer)."""
+    if entry and isinstance(cvs, LRef) and getattr(cvs, "entry_seq", None) is not None:
+        cvs = cvs.entry_seq
+    f = Q.seq_cpsum(cvs, 2)
+    if f is None:
+        raise Unsupported("width of a cview list without a prefix-sum model of its widths")
+    return f(Q.seq_len(cvs))
+
+
+class Rest:
+    """Zero or more shards that are not spelled out (see above)."""
+
+    def __init__(self, st, hint):
+        self.e = z3.Const(st.fresh_name(hint), _TAIL)
+        self.unfolded = None
+        st.assume(z3.And(_T_N(self.e) >= 0, _T_ROWS(self.e) >= 0, _T_COLS(self.e) >= 0))
+        st.assume(z3.Implies(_T_N(self.e) == 0, z3.And(_T_ROWS(self.e) == 0, _T_COLS(self.e) == 0)))  # no shards: sums over nothing
+
+    n = property(lambda self: V.mk_int(_T_N(self.e)))
+    rows = property(lambda self: V.mk_int(_T_ROWS(self.e)))
+    cols = property(lambda self: V.mk_int(_T_COLS(self.e)))
+
+    def unfold(self):
+        """(first shard, rest of the tail).  ONLY on a path where self.n > 0 has been established (the defining
+        equations below would otherwise cut the path)."""
+        if self.unfolded is None:
+            st = cur()
+            r = st.fresh_int("shard_rows")
+            cv = ListOf(CVIEW_HELD).fresh(st, "shard_cviews")
+            cv.entry_seq = cv.seq
+            rest = Rest(st, "shard_tail")
+            st.assume(both(r >= 0, self.n == 1 + rest.n, self.rows == r + rest.rows, self.cols == cviews_width(cv)))
+            self.unfolded = ((r, cv), rest)
+        return self.unfolded
+
+
+def _explicit(items):
+    for it in items:
+        if not (isinstance(it, tuple) and len(it) == 2 and isinstance(it[1], LRef)):
+            raise Unsupported(f"a shard that is not (rows, list of cviews): {it!r}")
+    return tuple(items)
+
+
+def _known_int(st, x, what, hi=4):
+    """The integer that x provably equals on this path (slice bounds of `shards[1:]` come as imin(1, len))."""
+    if isinstance(x, int):
+        return x
+    for c in range(hi + 1):
+        r, _m = st._check(V._z(x) != c, st.cfg.branch_timeout_ms)
+        if r == z3.unsat:
+            return c
+    raise Unsupported(f"{what} of a shard-list slice is not a known small constant on this path")
+
+
+class ShardSeq(Q.SSeq):
+    """Value (immutable) of a shard list: pre ++ rest ++ post."""
+
+    def __init__(self, pre, rest, post):
+        self.pre, self.rest, self.post = _explicit(pre), rest, _explicit(post)
+        n = len(self.pre) + len(self.post)
+        super().__init__(n if rest is None else n + rest.n, self._get, None, None, "shards")
+
+    def norm(self):
+        """The same value with every shard of the tail that has been spelled out so far made explicit."""
+        pre, rest = list(self.pre), self.rest
+        while rest is not None and rest.unfolded is not None:
+            pre.append(rest.unfolded[0])
+            rest = rest.unfolded[1]
+        return pre, rest, list(self.post)
+
+    def _get(self, i):
+        st = cur()
+        if not isinstance(i, int) or i < 0:
+            i = _known_int(st, i, "the index")
+        while True:
+            pre, rest, post = self.norm()
+            if i < len(pre):
+                return pre[i]
+            if rest is not None and st.branch(rest.n > 0):
+                rest.unfold()
+                continue
+            k = i - len(pre)
+            if k < len(post):
+                return post[k]
+            raise Unsupported("shard index beyond the shards that are spelled out")
+
+    def model_get(self, model, i):
+        return f"<shard {i}>"
+
+    def slice_model(self, lo, hi):
+        st = cur()
+        lo_c = _known_int(st, lo, "the lower bound")
+        r, _m = st._check(V._z(hi) != V._z(self.length), st.cfg.branch_timeout_ms)
+        if r != z3.unsat:
+            raise Unsupported("shard-list slice that does not run to the end of the list")
+        pre, rest, post = self.norm()
+        for _ in range(lo_c):
+            if pre:
+                pre.pop(0)
+            elif rest is not None:
+                r, _m = st._check(V._z(rest.n) <= 0, st.cfg.branch_timeout_ms)
+                if r != z3.unsat:
+                    raise Unsupported("slice of a shard list whose tail may be empty")
+                rest = rest.unfold()[1]
+            elif post:
+                post.pop(0)
+        return ShardSeq(pre, rest, post) if rest is not None else _explicit(pre + post)
+
+    def concat_model(self, other, left):
+        if isinstance(other, (tuple, list)):
+            o = (list(_explicit(other)), None, [])
+        elif isinstance(other, ShardSeq):
+            o = other.norm()
+        else:
+            raise Unsupported(f"concatenation of a shard list and {type(other).__name__}")
+        a, b = (self.norm(), o) if left else (o, self.norm())
+        if a[1] is not None and b[1] is not None:
+            raise Unsupported("concatenation of two shard lists with unknown tails")
+        if a[1] is None:
+            return ShardSeq(a[0] + a[2] + b[0], b[1], b[2])
+        return ShardSeq(a[0], a[1], a[2] + b[0] + b[2])
+
+
+class _ShardsShape(S.Shape):
+    """A shard list about which nothing is known: a new list object holding an unknown tail."""
+
+    def fresh(self, st, hint):
+        return LRef(ShardSeq((), Rest(st, hint), ()))
+
+    def __repr__(self):
+        return "Shards"
+
+
+SHARDS = _ShardsShape()
+
+
+def _parts(sh, entry=False):
+    if isinstance(sh, LRef):
+        sh = sh.seq
+    if isinstance(sh, (tuple, list)):
+        return list(_explicit(sh)), None, []
+    if isinstance(sh, ShardSeq):
+        return (list(sh.pre), sh.rest, list(sh.post)) if entry else sh.norm()
+    raise Unsupported(f"not a shard list: {sh!r}")
 
 
 def rows_of(sh):
-    if isinstance(sh, LRef):
-        if sh.seq == ():
-            return 0
-        raise Unsupported("rows_of a concrete shard list")
-    cur().assume(_ROWS(sh.e) >= 0)
-    return V.mk_int(_ROWS(sh.e))
+    """sum(r for r, cv in shards): CompositeCanvas.rows()."""
+    pre, rest, post = _parts(sh)
+    t = 0
+    for r, _cv in pre + post:
+        t = t + r
+    return t if rest is None else t + rest.rows
 
 
-def cols_of(sh):
-    if isinstance(sh, LRef):
-        if sh.seq == ():
-            return 0
-        raise Unsupported("cols_of a concrete shard list")
-    cur().assume(_COLS(sh.e) >= 0)
-    return V.mk_int(_COLS(sh.e))
+def cols_of(sh, entry=False):
+    """sum(cv[2] for cv in shards[0][1]) if shards else 0: CompositeCanvas.cols().  entry=True: judged by the
+    content the first shard's cview list had when it was first seen."""
+    pre, rest, post = _parts(sh, entry)
+    if pre:
+        return cviews_width(pre[0][1], entry)
+    after = cviews_width(post[0][1], entry) if post else 0
+    return after if rest is None else ite(rest.n > 0, rest.cols, after)
+
+
+def no_shards(sh):
+    n = Q.seq_len(sh)
+    return n == 0 if isinstance(n, int) else V._cmp("==", n, 0)
+
+
+# ---- aliasing / frame: the list objects the canvas held at entry (which it may share with the canvas it wraps:
+# CompositeCanvas.__init__ does `self.shards = canv.shards`) are never written to
+
+
+def _mark_entry(st, self_obj, vals):
+    l = self_obj.fields["shards"]
+    st.ghost["entry"] = _View(dict(lref=l, seq=l.seq, serial=LRef.serial_counter))
+
+
+def _entry_cview_lists(seq):
+    pre, rest, post = _parts(seq)  # incl. every shard of the entry tail that was spelled out during the run
+    return [cv for _r, cv in pre + post]
+
+
+def operand_clauses(s):
+    ent = cur().ghost["entry"]
+    yield "operand-shard-list-is-not-written-to", ent.lref.seq is ent.seq
+    yield "operand-cview-lists-are-not-written-to", all(cv.seq is getattr(cv, "entry_seq", cv.seq) for cv in _entry_cview_lists(ent.seq))
+    now = s.fields["shards"]
+    yield "shard-list-is-the-one-held-before-or-a-newly-built-one", isinstance(now, LRef) and (now is ent.lref or now.serial > ent.serial)
 
 
 def _fresh_coords(st, hint):
@@ -143,14 +332,14 @@ def _fresh_coords(st, hint):
     return DRef(d)
 
 
-REAL_CC = Obj(_canvas.CompositeCanvas, dict(shards=Opaque("Shards"), coords=S.Custom(_fresh_coords, "coords"), _widget_info=Opt(Opaque("WidgetInfo"))))
+REAL_CC = Obj(_canvas.CompositeCanvas, dict(shards=SHARDS, coords=S.Custom(_fresh_coords, "coords"), _widget_info=Opt(Opaque("WidgetInfo"))))
 
 
-def absview(o):
-    """The protocol model's fields, read off the real ones."""
+def absview(o, entry=False):
+    """The protocol model's fields, read off the real ones (entry=True: of the snapshot taken at entry)."""
     c = o.coords.d.get("cursor")
     cursor = SOpt(z3.BoolVal(c is None), (c[0], c[1]) if c is not None else (0, 0))
-    return _View(dict(ncols=cols_of(o.shards), nrows=rows_of(o.shards), cursor=cursor, top_off=0, left_off=0, noshards=False))
+    return _View(dict(ncols=cols_of(o.shards, entry), nrows=rows_of(o.shards), cursor=cursor, top_off=0, left_off=0, noshards=no_shards(o.shards)))
 
 
 def popup_moved(old, s, dx, dy):
@@ -161,7 +350,7 @@ def popup_moved(old, s, dx, dy):
 
 
 def _protocol_clauses(proto, old, s, a2, result, skip=("window",)):
-    for label, fml in proto._gen(proto.ensures(absview(old), absview(s), a2, result)):
+    for label, fml in proto._gen(proto.ensures(absview(old, True), absview(s), a2, result)):
         if label not in skip:
             yield label, fml
 
@@ -177,28 +366,58 @@ from pyvc.api import REGISTRY as _REG  # noqa: E402
 _saved = {k: _REG[k] for k in (CV + "CompositeCanvas.rows", CV + "CompositeCanvas.cols")}  # the protocol-model contracts
 
 
-@contract(CV + "CompositeCanvas.rows", property=(), assumed=True, notes="abstraction: rows() is the observer rows_of of the opaque shard list (sum of the shard heights)")
+@contract(CV + "CompositeCanvas.rows", property=(), assumed=True,
+          notes="abstraction: rows() is the observer rows_of of the shard list = heights of the shards that are spelled out + the observer "
+                "`rows` of the unknown tail (its body iterates over the whole list, which the head/tail abstraction cannot; verified for a "
+                "single-shard canvas as CompositeCanvas.rows#single-shard)")
 class real_rows:
     self_shape = REAL_CC
     result = Nat
     pure_spec = staticmethod(lambda old, a: rows_of(old.shards))
 
 
-@contract(CV + "CompositeCanvas.cols", property=(), assumed=True, notes="abstraction: cols() is the observer cols_of of the opaque shard list (sum of the first shard's cview widths; 0 for [])")
+def _cview_width_sums(ip, st, e, fr, seq):
+    """`cv[2] for cv in <cview list>`: its partial sums are the prefix sums of component 2 (list-theory model field)."""
+    import ast
+
+    g = e.generators[0]
+    if isinstance(e.elt, ast.Subscript) and isinstance(e.elt.value, ast.Name) and isinstance(g.target, ast.Name) and e.elt.value.id == g.target.id and isinstance(e.elt.slice, ast.Constant) and e.elt.slice.value == 2:
+        return Q.seq_cpsum(seq, 2)
+    return None
+
+
+@contract(CV + "CompositeCanvas.cols", property=("C02", "C01"), replayable=False, comprehension_sum=_cview_width_sums)
 class real_cols:
+    """cols() over the real fields: 0 for no shards, else the sum of the widths of the first shard's cviews -- the
+    definition of the observer cols_of, which is what callers (contract_overrides) get."""
     self_shape = REAL_CC
     result = Nat
+    raises = ()
     pure_spec = staticmethod(lambda old, a: cols_of(old.shards))
 
+    def ensures(old, s, a, result):
+        yield "zero-without-shards", implies(no_shards(old.shards), result == 0)
+        yield "width-of-the-first-shard", result == cols_of(old.shards)
+        yield "reads-only", s.fields["shards"].seq is old.fields["shards"].seq  # (the snapshot shares the immutable content value)
 
-# the two contracts above are used through `contract_overrides` only: the registry keeps the protocol-model ones
+
+def old_entry():
+    return cur().ghost["entry"]
+
+
+# the protocol-model contracts stay in the registry for the container proofs; the real-field ones are used through
+# `contract_overrides` and verified under their own keys
+_REG[CV + "CompositeCanvas.cols#real-fields"] = real_cols
 _REG.update(_saved)
 
+_NEW = ("the returned list is newly built (never the argument list object), and so are the cview lists of the shards it spells out "
+        "(shards_trim_top: only the first shard's; the later shard tuples are shared with the argument and nothing under contract writes to them)")
 
-@contract(CV + "shards_trim_top", property=(), assumed=True, notes="shard algebra (generator-driven, outside the subset): removes the top `top` rows, keeps the width; ValueError/CanvasError unless 0 < top < rows (call-pre)")
+
+@contract(CV + "shards_trim_top", property=(), assumed=True, notes="shard algebra (generator-driven, outside the subset): removes the top `top` rows, keeps the width; ValueError/CanvasError unless 0 < top < rows (call-pre); " + _NEW)
 class a_shards_trim_top:
-    params = dict(shards=Opaque("Shards"), top=Int)
-    result = Opaque("Shards")
+    params = dict(shards=SHARDS, top=Int)
+    result = SHARDS
 
     def requires(a):
         return both(a.top > 0, a.top < rows_of(a.shards))
@@ -208,10 +427,10 @@ class a_shards_trim_top:
         yield "cols", cols_of(r) == cols_of(a.shards)
 
 
-@contract(CV + "shards_trim_rows", property=(), assumed=True, notes="shard algebra: the topmost keep_rows rows (all of them when there are fewer); [] (no rows, no columns) for keep_rows == 0; ValueError for keep_rows < 0")
+@contract(CV + "shards_trim_rows", property=(), assumed=True, notes="shard algebra: the topmost keep_rows rows (all of them when there are fewer); [] (no rows, no columns) for keep_rows == 0; ValueError for keep_rows < 0; " + _NEW)
 class a_shards_trim_rows:
-    params = dict(shards=Opaque("Shards"), keep_rows=Int)
-    result = Opaque("Shards")
+    params = dict(shards=SHARDS, keep_rows=Int)
+    result = SHARDS
     raises_iff = {ValueError: lambda a: a.keep_rows < 0}
 
     def ensures(a, r):
@@ -219,10 +438,10 @@ class a_shards_trim_rows:
         yield "cols", cols_of(r) == ite(rows_of(r) == 0, 0, cols_of(a.shards))
 
 
-@contract(CV + "shards_trim_sides", property=(), assumed=True, notes="shard algebra: columns [left, left+cols) of every row; ValueError unless left >= 0 and cols > 0 (call-pre); the range must lie inside the canvas")
+@contract(CV + "shards_trim_sides", property=(), assumed=True, notes="shard algebra: columns [left, left+cols) of every row; ValueError unless left >= 0 and cols > 0 (call-pre); the range must lie inside the canvas; " + _NEW)
 class a_shards_trim_sides:
-    params = dict(shards=Opaque("Shards"), left=Int, cols=Int)
-    result = Opaque("Shards")
+    params = dict(shards=SHARDS, left=Int, cols=Int)
+    result = SHARDS
 
     def requires(a):
         return both(a.left >= 0, a.cols > 0, a.left + a.cols <= cols_of(a.shards))
@@ -232,7 +451,6 @@ class a_shards_trim_sides:
         yield "cols", cols_of(r) == a.cols
 
 
-_saved2 = {k: _REG[k] for k in (CV + "CompositeCanvas.trim", CV + "CompositeCanvas.trim_end")}  # cc_trim, cc_trim_end (assumed, used by callers)
 _OV = {CV + "CompositeCanvas.rows": real_rows, CV + "CompositeCanvas.cols": real_cols, CV + "Canvas.rows": real_rows, CV + "Canvas.cols": real_cols}
 _INL = ("Canvas.widget_info", "Canvas.translate_coords", "CompositeCanvas._discard_trimmed_cursor")
 
@@ -246,37 +464,63 @@ def _forced(a, *names):
     return _View(d)
 
 
-@contract(CV + "CompositeCanvas.trim", property=("C02", "C01"), inline=_INL, contract_overrides=_OV, missing_field=_finalized_error, replayable=False)
+def _unchanged(old, s):
+    """A refused call leaves the canvas as it was: same list object with the same content, same coords."""
+    ent = old_entry()
+    return both(s.fields["shards"] is ent.lref, ent.lref.seq is ent.seq, s.coords.d == old.coords.d)
+
+
+def _havoc_shards_and_coords(self, st, obj):
+    """Callee use of a real-field contract (pad_trim_top_bottom calls self.trim): `shards` afterwards is either the
+    very list object held before, content untouched, or a new list object -- the two cases the verified clauses
+    `shard-list-is-the-one-held-before-or-a-newly-built-one` + `operand-shard-list-is-not-written-to` allow."""
+    before = obj.fields["shards"]
+    Contract.havoc(self, st, obj)
+    if st.fork(2) == 1:
+        obj.fields["shards"] = before
+
+
+_MUT = dict(modifies=("shards", "coords"), havoc=_havoc_shards_and_coords)
+
+
+@contract(CV + "CompositeCanvas.trim", property=("C02", "C01"), alias="real-fields", inline=_INL, contract_overrides=_OV, missing_field=_finalized_error, replayable=False, **_MUT)
 class real_trim:
     self_shape = REAL_CC
     params = dict(top=Int, count=Opt(Int))
     raises = (ValueError, _canvas.CanvasError)
+    setup = _mark_entry
 
     def requires(s, a):
         # exactly cc_trim's precondition (the call-pre obligation of every container proof)
         return PW.cc_trim.requires(absview(s), a)
 
     def ensures(old, s, a, result):
+        a2 = _forced(a, "top", "count")
         yield "returns-none", result is None
         yield "not-finalized", is_none(old._widget_info)
-        yield from _protocol_clauses(PW.cc_trim, old, s, _forced(a, "top", "count"), result)
+        yield from _protocol_clauses(PW.cc_trim, old, s, a2, result)
+        # the frame of cc_trim says `ncols` stays; the real canvas forgets its width when no row is kept ([] has none)
+        yield "cols-kept-unless-no-row-is-kept", cols_of(s.shards) == (ite(a2.count == 0, 0, cols_of(old.shards, True)) if "count" in a2 else cols_of(old.shards, True))
         yield "pop-up-moves-with-the-content", popup_moved(old, s, 0, -a.top)
         yield "stays-unfinalized", is_none(s._widget_info)
+        if "entry" in cur().ghost:
+            yield from operand_clauses(s)
 
     def on_raise(old, s, a, exc):
         fin = not is_none(old._widget_info)
         cnt = cur().force(a.count)
         yield "canvas-error-iff-finalized", (exc.cls is _canvas.CanvasError) == fin
         yield "value-error-only-for-a-negative-count", implies(exc.cls is ValueError, cnt is not None and cnt < 0)
-        if fin:
-            yield "finalized-canvas-unchanged", both(eq(s.shards, old.shards), s.coords.d == old.coords.d)
+        if fin and "entry" in cur().ghost:
+            yield "finalized-canvas-unchanged", _unchanged(old, s)
 
 
-@contract(CV + "CompositeCanvas.trim_end", property=("C02", "C01"), inline=_INL, contract_overrides=_OV, missing_field=_finalized_error, replayable=False)
+@contract(CV + "CompositeCanvas.trim_end", property=("C02", "C01"), alias="real-fields", inline=_INL, contract_overrides=_OV, missing_field=_finalized_error, replayable=False, **_MUT)
 class real_trim_end:
     self_shape = REAL_CC
     params = dict(end=Int)
     raises = (_canvas.CanvasError,)
+    setup = _mark_entry
 
     def requires(s, a):
         return PW.cc_trim_end.requires(absview(s), a)
@@ -285,15 +529,73 @@ class real_trim_end:
         yield "returns-none", result is None
         yield "not-finalized", is_none(old._widget_info)
         yield from _protocol_clauses(PW.cc_trim_end, old, s, a, result)
+        yield "cols-kept-unless-no-row-is-kept", cols_of(s.shards) == ite(a.end == rows_of(old.shards), 0, cols_of(old.shards, True))
         yield "pop-up-stays", popup_moved(old, s, 0, 0)
+        if "entry" in cur().ghost:
+            yield from operand_clauses(s)
 
     def on_raise(old, s, a, exc):
         yield "canvas-error-iff-finalized", not is_none(old._widget_info)
-        yield "finalized-canvas-unchanged", both(eq(s.shards, old.shards), s.coords.d == old.coords.d)
+        if "entry" in cur().ghost:
+            yield "finalized-canvas-unchanged", _unchanged(old, s)
 
 
-# callers keep using the protocol-model contracts (CCANVAS fields); the two verification tasks above live under
-# their own registry keys (same target function)
-for _k, _c in ((CV + "CompositeCanvas.trim", real_trim), (CV + "CompositeCanvas.trim_end", real_trim_end)):
-    _REG[_k + "#real-fields"] = _c
-_REG.update(_saved2)
+# ---- pad_trim_left_right / pad_trim_top_bottom over the real fields: exactly the clauses of the assumed cc_ptlr / cc_pttb
+# (cols / rows, cursor moves with its cell or goes with it; `window` is a ghost of the protocol model) + the frame of
+# the protocol model (`modifies`) + operands unchanged + a finalized canvas refuses
+
+
+@contract(CV + "CompositeCanvas.pad_trim_left_right", property=("C02", "C01"), alias="real-fields", inline=_INL, contract_overrides=_OV, missing_field=_finalized_error, replayable=False, **_MUT)
+class real_ptlr:
+    self_shape = REAL_CC
+    params = dict(left=Int, right=Int)
+    raises = (_canvas.CanvasError,)
+    setup = _mark_entry
+
+    def requires(s, a):
+        # exactly cc_ptlr's precondition: trimming leaves a column, padding needs a shard to pad
+        return PW.cc_ptlr.requires(absview(s), a)
+
+    def ensures(old, s, a, result):
+        yield "returns-none", result is None
+        yield "not-finalized", is_none(old._widget_info)
+        yield from _protocol_clauses(PW.cc_ptlr, old, s, a, result)
+        yield "rows-kept", rows_of(s.shards) == rows_of(old.shards)
+        yield "pop-up-moves-with-the-content", popup_moved(old, s, a.left, 0)
+        yield "stays-unfinalized", is_none(s._widget_info)
+        yield from operand_clauses(s)
+
+    def on_raise(old, s, a, exc):
+        yield "canvas-error-iff-finalized", not is_none(old._widget_info)
+        yield "finalized-canvas-unchanged", _unchanged(old, s)
+
+
+_OV_TB = dict(_OV)
+_OV_TB[CV + "CompositeCanvas.trim"] = real_trim
+
+
+@contract(CV + "CompositeCanvas.pad_trim_top_bottom", property=("C02", "C01"), alias="real-fields", inline=_INL, contract_overrides=_OV_TB, missing_field=_finalized_error, replayable=False, **_MUT)
+class real_pttb:
+    self_shape = REAL_CC
+    params = dict(top=Int, bottom=Int)
+    raises = (_canvas.CanvasError,)
+    setup = _mark_entry
+
+    def requires(s, a):
+        return PW.cc_pttb.requires(absview(s), a)
+
+    def ensures(old, s, a, result):
+        yield "returns-none", result is None
+        yield "not-finalized", is_none(old._widget_info)
+        yield from _protocol_clauses(PW.cc_pttb, old, s, a, result)
+        # the frame of cc_pttb says `ncols` stays: so it does (the width is read before trimming, /repo ccfe065) unless the
+        # trim keeps no row and nothing is padded back: a canvas without shards has no width
+        none_left = both(either(a.top < 0, a.bottom < 0), rows_of(s.shards) == 0)
+        yield "cols-kept-unless-no-row-is-left", cols_of(s.shards) == ite(none_left, 0, cols_of(old.shards, True))
+        yield "pop-up-moves-with-the-content", popup_moved(old, s, 0, a.top)
+        yield "stays-unfinalized", is_none(s._widget_info)
+        yield from operand_clauses(s)
+
+    def on_raise(old, s, a, exc):
+        yield "canvas-error-iff-finalized", not is_none(old._widget_info)
+        yield "finalized-canvas-unchanged", _unchanged(old, s)
